@@ -19,10 +19,19 @@ from harness.common.num import q
 PID = "C16"
 LEVEL = "proof"
 REQUIRED_THEOREMS = [
-    "weights_nonneg_sum_one", "indices_in_range", "exact_at_centres", "multilinear_between_centres",
-    "exact_on_affine", "within_data_range", "periodic_seam", "outside_is_rejected",
-    "inside_is_accepted", "boundary_strip_nearest", "ghost_mode_linear_to_bc_value",
-    "insert_conserves", "insert_interpreted_eq_compiled",
+    "weights_nonneg_sum_one", "weights_clipped", "indices_in_range", "indices_in_range_ghost",
+    "exact_at_centres", "exact_at_centres2", "exact_at_centres3",
+    "multilinear_between_centres", "multilinear_between_centres2", "multilinear_between_centres3",
+    "exact_on_affine", "exact_on_affine2", "exact_on_affine3",
+    "within_data_range", "within_data_range2", "within_data_range3",
+    "periodic_seam", "periodic_seam2", "periodic_seam3", "periodic_shift",
+    "outside_is_rejected", "outside_is_rejected2", "outside_is_rejected3",
+    "inside_is_accepted", "inside_is_accepted2", "inside_is_accepted3",
+    "boundary_strip_nearest", "boundary_strip_nearest2", "boundary_strip_nearest3",
+    "ghost_mode_linear_to_bc_value", "ghost_mode_linear_to_bc_value2", "ghost_mode_linear_to_bc_value3",
+    "insert_conserves", "insert_conserves_compiled", "insert_conserves_compiled2", "insert_conserves_compiled3",
+    "insert_conserves_compiled_ghost", "insert_conserves_compiled_ghost2",
+    "insert_interpreted_eq_compiled", "insert_interpreted_eq_compiled2", "insert_interpreted_eq_compiled3",
 ]
 RULE = ("(a) lattice sweep: small dyadic Cartesian grids with 1 and 2 axes, every periodicity pattern, every point of "
         "a regular lattice of cell coordinates from 2 cells below to 1 cell above the domain (all integer / half-integer "
